@@ -11,7 +11,7 @@ Line protocol for the `compose` slice:
   compose ext <bulkhead id> <k>      hold k permits through the standalone API
   compose adv <ns>                   advance the virtual clock
   compose mute <pos,…>               the policies at these positions are built without any listener (their listener events are not observable)
-  compose run <ctxKey|-|''> <script> [x=<fn|sched|pre>:<k>:<ctx|async>]   script = items `val,err[,B]` separated by `;` (or `-`);
+  compose run <ctxKey|-|''> <script> [x=<fn|sched|pre>:<k>:<ctx|async>]   script = items `val,err[,B|,S][,+ns]` separated by `;` (or `-`; `+ns`: the invocation advances the virtual clock);
             x = the execution is cancelled from inside the k-th function invocation / k-th OnRetryScheduled listener / before it
             starts, through its context or through ExecutionResult.Cancel
     => res <val> <err> verdict=<S|F> inv=<n> att=<a> exe=<e> ret=<r> hed=<h> log=<events> br[..] bh[..] ca[..]
@@ -33,9 +33,13 @@ structure St where
 
 def parseItem (s : String) : Option Item :=
   match s.splitOn "," with
-  | [v, e] => (parseErr e).map fun e => ⟨int! v, e, false, false⟩
-  | [v, e, "B"] => (parseErr e).map fun e => ⟨int! v, e, true, false⟩
-  | [v, e, "S"] => (parseErr e).map fun e => ⟨int! v, e, false, true⟩
+  | v :: e :: flags =>
+    (parseErr e).map fun e =>
+      flags.foldl (fun (it : Item) f =>
+        if f == "B" then { it with blocks := true }
+        else if f == "S" then { it with sleeps := true }
+        else if f.startsWith "+" then { it with adv := int! (f.drop 1).toString }
+        else it) ⟨int! v, e, false, false, 0⟩
   | _ => none
 
 def parseScript (s : String) : List Item :=
